@@ -49,7 +49,7 @@ Proof. apply (close_all_frame s ks). Qed.
 Lemma simple_weffect s w s' : simple_state s -> weffect c s w s' -> simple_state s'.
 Proof.
   intros HS He. pose proof (HS w) as Hw.
-  destruct He as [i a t rest Hsrc Hc Hb | Hsrc Hc | i Hsrc Hc Hb Hcl | ctl' Hcn
+  destruct He as [i a t rest Hsrc Hc Hb | Hsrc Hc | i Hsrc Hc Hb Hcl | ctl' Hcn Hdue Hsl Hsls
                  | eof a k0 v rest Hc Hs Hcl | eof k0 t r rest Hc Hb | dropped Hp Hnd Hnr Hnc Hwhy | eof a k0 v rest Hc Hs Hcl].
   - apply simple_other with s w; simpl; intros; upd_simpl; auto. apply simple_take.
   - apply simple_other with s w; simpl; intros; upd_simpl; auto. apply simple_take.
